@@ -32,6 +32,14 @@ func c16(tier string) []*explore.Scenario {
 		out = append(out, c16RPC("2unary", pre, bound), c16RPC("unary+stream", pre, bound), c16RPC("2streams", pre, bound-0))
 	}
 	out = append(out, c16RPC("early-return", true, bound), c16RPC("early-return", false, bound-1))
+	// a destination that is replaced under its name (re-attach, attach during a pending dial):
+	// later envelopes are delivered to the newer connection (scenarios shared with C17)
+	for _, when := range []string{"before-old-fails", "after-old-fails"} {
+		out = append(out, c17Reattach("C16", when, bound))
+	}
+	for _, dial := range []string{"fails", "succeeds", "pending"} {
+		out = append(out, c17AttachDuringDial("C16", dial, bound))
+	}
 	out = append(out, c16RPC("payloads", true, 0))
 	out = append(out, c16Burst(12, 0), c16Burst(50, 0), c16Burst(24, 1))
 	return out
